@@ -77,14 +77,17 @@ class RequestContextHolder:
     @classmethod
     def update_request_start(cls, new_request_start):
         meta = cls.request_context.get()
-        # this can happen if multiple requests are sent on the wire for one logical request (e.g. scrolls)
-        if "request_start" not in meta:
+        # keep the earliest start: multiple requests may be sent on the wire for one logical request (e.g. scrolls) and
+        # concurrent sub-requests propagate their start in the order in which they finish
+        if new_request_start is not None and (meta.get("request_start") is None or new_request_start < meta["request_start"]):
             meta["request_start"] = new_request_start
 
     @classmethod
     def update_request_end(cls, new_request_end):
         meta = cls.request_context.get()
-        meta["request_end"] = new_request_end
+        # keep the latest end: a sub-request context may be left after a sibling that finished its request later
+        if new_request_end is not None and (meta.get("request_end") is None or new_request_end > meta["request_end"]):
+            meta["request_end"] = new_request_end
 
     @classmethod
     def on_request_start(cls):
